@@ -642,3 +642,107 @@ def check(run, prog, tier):
                    "`%s` (line %s) can be reached with text_start > 0: the kept input is thrown away but its start is not, so text_start > text_end afterwards" % (show(n)[:40], n.get("l")), f.file, n.get("l"), f.name,
                    what="%s lowers text_end without text_start: the next read is parsed from a stale start" % f.name)
     run.need(nk >= 4, "stores that set text_end to a constant (found %d)" % nk)
+
+    # ---- C13-l what the console feeder counts as moved is moved
+    run.rule("C13-l", "console input: the feeder (the function that takes messages off the console queue) cuts each piece down to the room it computed (K1 - text_end) and then counts the piece as consumed; the function it hands the piece to refuses silently when text_end + len reaches its own limit K2. K2 > K1, so the refusal cannot happen for a piece the feeder has counted - otherwise those bytes are neither stored nor offered again and the commands around them are glued together", 1)
+
+    def lin(f, e, depth=0):
+        """(constant, coefficient of ->text_end, id of the one local added with coefficient 1 or None) for a linear expression"""
+        e = strip(e)
+        k = const_val(e)
+        if k is not None:
+            return (k, 0, None)
+        if field_of(e, "text_end"):
+            return (0, 1, None)
+        if e.get("k") == "Cast" and isinstance(e.get("e"), dict):
+            return lin(f, e["e"], depth)
+        if e.get("k") == "Ref" and e.get("d") in ("local", "param") and e.get("id") is not None:
+            return (0, 0, e["id"])
+        if e.get("k") == "Bin" and e.get("op") in ("+", "-"):
+            a, b = lin(f, e["L"], depth), lin(f, e["R"], depth)
+            if a is None or b is None:
+                return None
+            s = 1 if e["op"] == "+" else -1
+            if b[2] is not None and (s < 0 or a[2] is not None):
+                return None
+            return (a[0] + s * b[0], a[1] + s * b[1], a[2] if a[2] is not None else b[2])
+        return None
+
+    def single_def(f, vid):
+        defs = [n2["R"] for b2, i2, n2 in f.nodes() if n2.get("k") == "Asg" and n2.get("op") == "=" and strip(n2["L"]).get("k") == "Ref" and strip(n2["L"]).get("id") == vid]
+        defs += [v["init"] for b2, i2, n2 in f.nodes() if n2.get("k") == "Decl" for v in n2.get("vars", ()) if v.get("id") == vid and isinstance(v.get("init"), dict)]
+        return defs
+    nl_ = 0
+    for f in sorted(comm.funcs.values(), key=lambda x: x.line):
+        if not f.calls("async_queue_dequeue"):
+            continue
+        for b, i, n in f.calls():
+            g = comm.funcs.get(n.get("fn") or "")
+            if g is None or not g.static or g.name == f.name:
+                continue
+            # a piece: (pointer, length local) handed over, and the length added to a position afterwards
+            lens = [(ai, strip(a)) for ai, a in enumerate(n.get("args", [])) if strip(a).get("k") == "Ref" and strip(a).get("d") == "local" and "int" in (strip(a).get("t") or "")]
+            counted = None
+            for ai, a in lens:
+                for b2, i2, n2 in f.nodes():
+                    if n2.get("k") == "Asg" and n2.get("op") == "+=" and strip(n2["R"]).get("id") == a.get("id") and (b2.id in cfgq.reach_set(f, b.live_succ()) or (b2.id == b.id and i2 > i)):
+                        counted = (ai, a)
+            if counted is None:
+                continue
+            ai, a = counted
+            nl_ += 1
+            run.saw(f)
+            run.saw(g)
+            # K1: `if (len > room) len = room` with room = K1 - text_end
+            k1 = None
+            for b2, i2, n2 in f.nodes():
+                if n2.get("k") == "Asg" and n2.get("op") == "=" and strip(n2["L"]).get("id") == a.get("id") and strip(n2["R"]).get("k") == "Ref" and strip(n2["R"]).get("d") == "local":
+                    rid = strip(n2["R"]).get("id")
+                    clamp = any(op in (">", ">=") and strip(l).get("id") == a.get("id") and strip(r).get("id") == rid for op, l, r in [atom_of(c, t) for c, t, B in cfgq.guards(f, b2.id)] if r is not None)
+                    ds = single_def(f, rid)
+                    if clamp and len(ds) == 1:
+                        lf = lin(f, ds[0])
+                        if lf is not None and lf[1] == -1 and lf[2] is None:
+                            k1 = lf[0]
+            # K2: the branches of g that return without a store through a pointer, on text_end + len
+            pid_ = None
+            for p_ in g.params or []:
+                if p_.get("pi") == ai:
+                    pid_ = p_.get("id")
+            k2, unread = None, None
+            storing = {b2.id for b2, i2, n2 in g.nodes() if n2.get("k") == "Asg" and strip(n2["L"]).get("k") in ("Un", "Sub")}
+            for bid in g.reachable():
+                blk = g.blocks[bid]
+                c = g.branch_cond(blk)
+                if c is None or len(blk.succ) < 2:
+                    continue
+                for truth, s in ((True, blk.succ[0]), (False, blk.succ[1])):
+                    if s is None:
+                        continue
+                    # does this side leave without storing anything?
+                    if g.reach_avoiding([s], lambda bb: bb.id in storing, avoid_blocks=()) is not None:
+                        continue
+                    op, l, r = atom_of(c, truth)
+                    if r is None:
+                        continue
+                    lf, rf = lin(g, l), lin(g, r)
+                    if lf is None or rf is None or lf[2] != pid_ or lf[1] != 1 or rf[1] != 0 or rf[2] is not None:
+                        if lf is not None and lf[2] == pid_ and lf[1] == 1:
+                            unread = show(c)[:60]
+                        continue
+                    lim = rf[0] - lf[0]
+                    lim = lim if op == ">=" else lim + 1 if op == ">" else None
+                    if lim is not None:
+                        k2 = lim if k2 is None else min(k2, lim)
+            if k1 is None:
+                ok, why = None, "the room the feeder cuts a piece down to is not of the form K - text_end"
+            elif k2 is None and unread is None:
+                ok, why = True, "%s() has no silent refusal on text_end + len" % g.name
+            elif k2 is None:
+                ok, why = None, "%s() refuses under `%s`, which this rule does not read" % (g.name, unread)
+            else:
+                ok = k2 > k1
+                why = "%s() cuts a piece to %d - text_end and counts it; %s() refuses only from text_end + len >= %d" % (f.name, k1, g.name, k2) if ok else \
+                    "%s() cuts a piece to %d - text_end and adds its length to the position it has consumed (line %s); %s() returns without storing it when text_end + len >= %d, which a piece of exactly that room reaches: the bytes are dropped from the middle of the stream" % (f.name, k1, n.get("l"), g.name, k2)
+            run.ob("C13-l", "counted-is-stored:%s:%s" % (f.name, g.name), ok, why, f.file, n.get("l"), f.name, what="%s counts console input as consumed that %s refuses to store" % (f.name, g.name))
+    run.need(nl_ >= 1, "pieces handed over and counted by the console feeder (found %d)" % nl_)
